@@ -995,119 +995,35 @@ def cost_model_available(model):
         return False
 
 
-def check_cost_model(ctx, rep, rng, tier):
-    model = ctx["model"]
-    if not cost_model_available(model):
-        rep.extra["cost_model_correspondence"] = "skipped: Cost.cost_dispatch (FN 420-439) is not reachable in the extracted model"
-        if model is not None:
-            rep.violation("the extracted model does not answer the Cost.v entry points (FN 420-439)", {"kind": "model"},
-                          concrete=False, match_keys={"kind": "model-missing"})
-        return
-    n_cases = 0
+def cost_cases(rng, tier):
+    """inputs of the five parts of the cost-model correspondence (plain JSON)"""
     mult = 1 if tier == "quick" else 6
-
-    def disagree(what, replay):
-        rep.violation("cost model and implementation disagree: " + what, replay, concrete=False,
-                      match_keys={"kind": "model-disagreement", "via": replay.get("part")})
-
-    # (1) PackInfo.packpositions
+    parts = {"packpositions": [], "utf16": [], "names": [], "bonds": [], "digest": [], "loops": []}
     for _ in range(60 * mult):
         nosz = rng.random() < 0.3
         n = rng.choice([0, 1, 2, 3, 7, 20, 60])
         sizes = [] if nosz else [rng.choice([0, 1, 127, 128, 2 ** 32, rng.getrandbits(40)]) for _ in range(n)]
-        raw = num(rng.choice([0, 5])) + num(n) + (b"" if nosz else b"\x09" + b"".join(num(s) for s in sizes)) + b"\x00"
-        p = ai.PackInfo.retrieve(io.BytesIO(raw))
-        want = model.call("packpositions", [sizes, n])
-        steps = sum(len(p.packsizes[:i]) + 1 for i in range(p.numstreams + 1))
-        wsteps = model.call("packpositions_steps", [len(sizes), n])
-        rep.count(("packpos", n, tuple(sizes)), nontrivial=n > 0)
-        n_cases += 1
-        if list(p.packpositions) != want or steps != wsteps:
-            disagree("packpositions of %r, n=%d: impl %r (%d cells), model %r (%d cells)" % (sizes, n, p.packpositions, steps, want, wsteps),
-                     {"part": "packpositions", "sizes": sizes, "n": n})
-            break
-    # (2) read_utf16 iterations, per call and per name list
+        parts["packpositions"].append({"sizes": sizes, "n": n, "nosz": nosz, "pos": rng.choice([0, 5])})
     for _ in range(40 * mult):
         k = rng.choice([0, 1, 2, 3, 8, 31])
         body = b"".join(bytes([rng.randrange(0x20, 0x7F), 0]) for _ in range(k))
         tail = rng.choice([b"\0\0", b"\0\0", b"", b"\0", b"A", b"\0\0zz"])
-        buf = body + tail
-        f = CountIO(buf)
-        try:
-            ai.read_utf16(f)
-        except Exception:  # noqa  (decode errors come after the loop)
-            pass
-        want = model.call("utf16_iters", list(buf))
-        rep.count(("utf16", buf), nontrivial=True)
-        n_cases += 1
-        if f.reads != want:
-            disagree("read_utf16 on %s: %d reads, model %d" % (buf.hex(), f.reads, want), {"part": "utf16_iters", "buf": buf.hex()})
-            break
+        parts["utf16"].append({"buf": (body + tail).hex()})
     for _ in range(12 * mult):
         nf = rng.choice([1, 2, 3, 5])
         have = rng.randrange(0, nf + 1)
         buf = b"".join(b"".join(bytes([rng.randrange(0x41, 0x5B), 0]) for _ in range(rng.choice([1, 3, 9]))) + b"\0\0"
                        for _ in range(have))
-        fi = ai.FilesInfo()
-        fi.files = [{} for _ in range(nf)]
-        f = CountIO(buf)
-        fi._read_name(f)
-        want = model.call("names_steps", [nf, list(buf)])
-        rep.count(("names", nf, buf), nontrivial=True)
-        n_cases += 1
-        if f.reads != want:
-            disagree("_read_name of %d files on %d bytes: %d reads, model %d" % (nf, len(buf), f.reads, want),
-                     {"part": "names_steps", "n": nf, "buf": buf.hex()})
-            break
-    # (3) Folder._read packed_indices: comparisons against bond.incoder
-    counter = [0]
-
-    class CountingBond:
-        def __init__(self, incoder, outcoder):
-            self._in, self.outcoder = incoder, outcoder
-
-        @property
-        def incoder(self):
-            counter[0] += 1
-            return self._in
-
-    saved = ai.Bond
-    ai.Bond = CountingBond
-    try:
-        for _ in range(40 * mult):
-            nb = rng.choice([0, 1, 2, 5, 17, 40])
-            bonds = [[rng.choice([rng.randrange(0, nb + 2), nb + 5, 2 ** 40]), rng.randrange(0, nb + 1)] for _ in range(nb)]
-            raw = num(1) + bytes([0x11]) + b"\x00" + num(nb + 1) + num(nb + 1) + b"".join(num(a) + num(b) for a, b in bonds)
-            counter[0] = 0
-            fo = ai.Folder.retrieve(io.BytesIO(raw))
-            want = model.call("packed_indices_steps", [bonds, nb + 1])
-            rep.count(("bonds", tuple(map(tuple, bonds))), nontrivial=nb > 0)
-            n_cases += 1
-            if counter[0] != want:
-                disagree("bind-pair search with %d bonds: %d comparisons, model %d" % (nb, counter[0], want),
-                         {"part": "packed_indices_steps", "bonds": bonds})
-                break
-            del fo
-    finally:
-        ai.Bond = saved
-    # (4) _read_digest
+        parts["names"].append({"n": nf, "buf": buf.hex()})
+    for _ in range(40 * mult):
+        nb = rng.choice([0, 1, 2, 5, 17, 40])
+        bonds = [[rng.choice([rng.randrange(0, nb + 2), nb + 5, 2 ** 40]), rng.randrange(0, nb + 1)] for _ in range(nb)]
+        parts["bonds"].append({"bonds": bonds})
     for _ in range(30 * mult):
         size = rng.choice([0, 1, 5, 64, 65, 1000, 4096, 10 ** 5])
         bs = rng.choice([1, 7, 64, 4096])
-        if size // bs > 20000:
-            continue
-        z = object.__new__(py7zr.SevenZipFile)
-        z.fp = CountIO(b"x" * rng.choice([0, 10, 5000]))
-        z._block_size = bs
-        z._read_digest(0, size)
-        want = model.call("read_digest_iters", [size, bs])
-        rep.count(("digest", size, bs), nontrivial=size > 0)
-        n_cases += 1
-        if z.fp.reads != want:
-            disagree("_read_digest(size=%d, block=%d): %d reads, model %d" % (size, bs, z.fp.reads, want),
-                     {"part": "read_digest_iters", "size": size, "bs": bs})
-            break
-    # (5) the two loops with toy stages: result, or fuel exhausted = still looping after `fuel` calls
+        if size // bs <= 20000:
+            parts["digest"].append({"size": size, "bs": bs, "have": rng.choice([0, 10, 5000])})
     for _ in range(120 * mult):
         nst = rng.choice([1, 1, 2, 3])
         states = [[rng.choice([0, 1, 2]), rng.choice([0, 1, 3]), []] for _ in range(nst)]
@@ -1116,32 +1032,138 @@ def check_cost_model(ctx, rep, rng, tier):
         isz = rng.choice([plen, plen, max(0, plen - 3), plen + 4])
         bsz = rng.choice([1, 4, 16, 100])
         grow = 1
-        for s in states:
-            grow *= 2 if s[0] == 2 else 1
+        for st in states:
+            grow *= 2 if st[0] == 2 else 1
         true_out = min(plen, isz) * grow
         us = [rng.choice([true_out, true_out, true_out + 7, max(0, true_out - 2), 10 ** 6]) for _ in range(nst)]
         size = rng.choice([true_out, max(0, true_out - 3), true_out + 5, 1, 0])
         mb = rng.choice([1, 3, 8, 10 ** 6])
-        fuel = 400
-        m = model_res_bytes(model.call("toy_worker", [fuel, states, us, isz, bsz, packed, size, mb, []]))
-        i = impl_toy_worker(fuel, states, us, isz, bsz, packed, size, mb)
-        rep.count(("toyworker", repr((states, us, isz, bsz, packed, size, mb))), nontrivial=plen > 0)
-        rep.dist("loop_model_outcome", "worker:" + (m[0] if m[0] == "ok" else m[1]))
-        n_cases += 1
-        if not same_loop_result(m, i):
-            disagree("Worker.decompress with toy stages %r: impl %r, model %r" % ((states, us, isz, bsz, packed, size, mb), i, m),
-                     {"part": "toy_worker", "args": [fuel, states, us, isz, bsz, packed, size, mb]})
-            break
-        usize = size
-        m = model_res_bytes(model.call("toy_header_loop", [fuel, states, us, isz, bsz, packed, usize, []]))
-        i = impl_toy_header_loop(fuel, states, us, isz, bsz, packed, usize)
-        rep.count(("toyheader", repr((states, us, isz, bsz, packed, usize))), nontrivial=plen > 0)
-        rep.dist("loop_model_outcome", "header:" + (m[0] if m[0] == "ok" else m[1]))
-        n_cases += 1
-        if not same_loop_result(m, i):
-            disagree("Header._read loop with toy stages %r: impl %r, model %r" % ((states, us, isz, bsz, packed, usize), i, m),
-                     {"part": "toy_header_loop", "args": [fuel, states, us, isz, bsz, packed, usize]})
-            break
+        parts["loops"].append({"fuel": 400, "states": states, "us": us, "isz": isz, "bsz": bsz, "packed": packed, "size": size, "mb": mb})
+    return parts
+
+
+def child_cost_impl(arg):
+    """the implementation side of one part of the cost-model correspondence (runs in a sandboxed child: a loop that no
+    longer ends must not take the check down)"""
+    part, cases, out = arg["part"], arg["cases"], []
+    if part == "packpositions":
+        for c in cases:
+            raw = num(c["pos"]) + num(c["n"]) + (b"" if c["nosz"] else b"\x09" + b"".join(num(x) for x in c["sizes"])) + b"\x00"
+            p = ai.PackInfo.retrieve(io.BytesIO(raw))
+            out.append([list(p.packpositions), sum(len(p.packsizes[:i]) + 1 for i in range(p.numstreams + 1))])
+    elif part == "utf16":
+        for c in cases:
+            f = CountIO(bytes.fromhex(c["buf"]))
+            try:
+                ai.read_utf16(f)
+            except Exception:  # noqa  (decode errors come after the loop)
+                pass
+            out.append(f.reads)
+    elif part == "names":
+        for c in cases:
+            fi = ai.FilesInfo()
+            fi.files = [{} for _ in range(c["n"])]
+            f = CountIO(bytes.fromhex(c["buf"]))
+            fi._read_name(f)
+            out.append(f.reads)
+    elif part == "bonds":
+        counter = [0]
+
+        class CountingBond:
+            def __init__(self, incoder, outcoder):
+                self._in, self.outcoder = incoder, outcoder
+
+            @property
+            def incoder(self):
+                counter[0] += 1
+                return self._in
+
+        ai.Bond = CountingBond
+        for c in cases:
+            nb = len(c["bonds"])
+            raw = num(1) + bytes([0x11]) + b"\x00" + num(nb + 1) + num(nb + 1) + b"".join(num(a) + num(b) for a, b in c["bonds"])
+            counter[0] = 0
+            ai.Folder.retrieve(io.BytesIO(raw))
+            out.append(counter[0])
+    elif part == "digest":
+        for c in cases:
+            z = object.__new__(py7zr.SevenZipFile)
+            z.fp = CountIO(b"x" * c["have"])
+            z._block_size = c["bs"]
+            z._read_digest(0, c["size"])
+            out.append(z.fp.reads)
+    elif part == "loops":
+        for c in cases:
+            w = impl_toy_worker(c["fuel"], c["states"], c["us"], c["isz"], c["bsz"], c["packed"], c["size"], c["mb"])
+            h = impl_toy_header_loop(c["fuel"], c["states"], c["us"], c["isz"], c["bsz"], c["packed"], c["size"])
+            out.append([[w[0], w[1].hex() if w[0] == "ok" else w[1]], [h[0], h[1].hex() if h[0] == "ok" else h[1]]])
+    return out
+
+
+def check_cost_model(ctx, rep, rng, tier):
+    model = ctx["model"]
+    if not cost_model_available(model):
+        rep.extra["cost_model_correspondence"] = "skipped: Cost.cost_dispatch (FN 420-439) is not reachable in the extracted model"
+        if model is not None:
+            rep.violation("the extracted model does not answer the Cost.v entry points (FN 420-439)", {"kind": "model"},
+                          concrete=False, match_keys={"kind": "model-missing"})
+        return
+    parts = cost_cases(rng, tier)
+    names = list(parts)
+    with ThreadPoolExecutor(max_workers=6) as ex:
+        outs = list(ex.map(lambda p: run_sandboxed("harness.c05:child_cost_impl", {"part": p, "cases": parts[p]},
+                                                   timeout=60 if tier == "quick" else 300, mem_mb=1500), names))
+    n_cases = 0
+
+    def disagree(what, replay):
+        rep.violation("cost model and implementation disagree: " + what, replay, concrete=False,
+                      match_keys={"kind": "model-disagreement", "via": replay.get("part")})
+
+    for p, o in zip(names, outs):
+        if o["status"] != "ok":
+            # the loops under test are exactly the ones that may stop ending: a concrete failing input is in the list
+            rep.violation("the %s part of the cost-model correspondence did not return (%s): one of its %d small inputs makes the "
+                          "implementation run on or fail (%s)" % (p, o["status"], len(parts[p]), json.dumps(o)[:300]),
+                          {"kind": "costpart", "part": p, "cases": parts[p]}, match_keys={"kind": "hang", "via": "cost-model-part:" + p})
+            continue
+        for c, got in zip(parts[p], o["value"]):
+            n_cases += 1
+            if p == "packpositions":
+                want = [model.call("packpositions", [c["sizes"], c["n"]]), model.call("packpositions_steps", [len(c["sizes"]), c["n"]])]
+                rep.count(("packpos", c["n"], tuple(c["sizes"])), nontrivial=c["n"] > 0)
+            elif p == "utf16":
+                want = model.call("utf16_iters", list(bytes.fromhex(c["buf"])))
+                rep.count(("utf16", c["buf"]), nontrivial=True)
+            elif p == "names":
+                want = model.call("names_steps", [c["n"], list(bytes.fromhex(c["buf"]))])
+                rep.count(("names", c["n"], c["buf"]), nontrivial=True)
+            elif p == "bonds":
+                want = model.call("packed_indices_steps", [c["bonds"], len(c["bonds"]) + 1])
+                rep.count(("bonds", repr(c["bonds"])), nontrivial=len(c["bonds"]) > 0)
+            elif p == "digest":
+                want = model.call("read_digest_iters", [c["size"], c["bs"]])
+                rep.count(("digest", c["size"], c["bs"]), nontrivial=c["size"] > 0)
+            else:
+                args = [c["fuel"], c["states"], c["us"], c["isz"], c["bsz"], c["packed"], c["size"], c["mb"]]
+                mw = model_res_bytes(model.call("toy_worker", args + [[]]))
+                mh = model_res_bytes(model.call("toy_header_loop", args[:7] + [[]]))
+                iw = (got[0][0], bytes.fromhex(got[0][1]) if got[0][0] == "ok" else got[0][1])
+                ih = (got[1][0], bytes.fromhex(got[1][1]) if got[1][0] == "ok" else got[1][1])
+                rep.count(("toyloops", repr(args)), nontrivial=len(c["packed"]) > 0)
+                rep.dist("loop_model_outcome", "worker:" + (mw[0] if mw[0] == "ok" else mw[1]))
+                rep.dist("loop_model_outcome", "header:" + (mh[0] if mh[0] == "ok" else mh[1]))
+                n_cases += 1
+                if not same_loop_result(mw, iw):
+                    disagree("Worker.decompress with toy stages %r: impl %r, model %r" % (args, iw, mw), {"part": "toy_worker", "args": args})
+                    break
+                if not same_loop_result(mh, ih):
+                    disagree("Header._read loop with toy stages %r: impl %r, model %r" % (args[:7], ih, mh),
+                             {"part": "toy_header_loop", "args": args[:7]})
+                    break
+                continue
+            if got != want:
+                disagree("%s on %s: implementation %r, model %r" % (p, json.dumps(c)[:300], got, want), {"part": p, "case": c})
+                break
     rep.extra["cost_model_correspondence"] = {"cases": n_cases}
 
 
